@@ -232,6 +232,7 @@ fn raw_script(instrs: &[Sexp]) -> Vec<RawInstr> {
 
 /// `label_{offset}` / `label_{offset}r` -> `(lab n INDEX)` / `(lab r INDEX)` with the index of the instruction at that offset
 fn label_sexp(name: &str, offsets: &[u64]) -> Sexp {
+    if name == "label_startr" { return Sexp::app("lab", vec![Sexp::atom("start")]); }
     let body = name.strip_prefix("label_").unwrap_or(name);
     let (num, kind) = match body.strip_suffix('r') { Some(n) => (n, "r"), None => (body, "n") };
     let index = num.parse::<u64>().ok().and_then(|o| offsets.iter().position(|&x| x == o));
@@ -278,7 +279,9 @@ fn flat_options() -> truth::DecompileOptions { truth::DecompileOptions { blocks:
 
 fn instr_brief(i: &RawInstr) -> String { format!("{}@{}:{}", i.opcode, i.time, crate::sexp::hex(&i.args_blob)) }
 
-/// the two destinations that `generate_label_at_offset` both names `label_0r`: the start of the
+/// input shape that used to break (finding `r-label-name-collision-at-script-start`, fixed by naming
+/// the first one `label_startr`); kept as a tag so the evidence shows the shape is still generated.
+/// The two destinations that `generate_label_at_offset` would both name `label_0r`: the start of the
 /// script (r label: all jumps there use time 0 < time of instruction 0) and instruction 1
 /// (r label: all jumps there use the time of instruction 0 < time of instruction 1)
 fn has_rlabel_collision(instrs: &[Sexp]) -> bool {
@@ -296,8 +299,8 @@ fn has_rlabel_collision(instrs: &[Sexp]) -> bool {
 
 /// recompile decompiled text and compare with the stored instructions
 fn roundtrip_failure(case: &[Sexp], orig: &[RawInstr], text: &str) -> Option<Sexp> {
-    let collision = has_rlabel_collision(case) || text.matches("label_0r:").count() >= 2;
-    let sig = |s: &str| if collision { "r-label-name-collision-at-script-start".to_string() } else { s.to_string() };
+    let _ = case;
+    let sig = |s: &str| s.to_string();
     let re = compile_text(text);
     let Some(new) = &re.value else {
         return Some(fail(sig("decompiled-script-does-not-recompile"), format!("{} | text: {}", diag_class(&re.diagnostics), text.replace('\n', " "))));
@@ -342,9 +345,7 @@ fn rt_case(stmts: &[Sexp]) -> Sexp {
     let Some(dec) = &d.value else {
         return fail("compiled-script-does-not-decompile", format!("{} | source: {}", diag_class(&d.diagnostics), text.replace('\n', " ")));
     };
-    // the known label-name collision (two destinations called `label_0r`) is keyed by its cause
-    let collision = dec.text.matches("label_0r:").count() >= 2;
-    let sig = |s: &str| if collision { "r-label-name-collision-at-script-start".to_string() } else { s.to_string() };
+    let sig = |s: &str| s.to_string();
     let re = compile_text(&dec.text);
     let Some(new) = &re.value else {
         return fail(sig("decompiled-script-does-not-recompile"), format!("{} | text: {}", diag_class(&re.diagnostics), dec.text.replace('\n', " ")));
@@ -507,10 +508,10 @@ impl Prop for C13 {
             "(raise (i 2147483647) (i -2147483648) (i 2147483647))",
         ];
         for f in fixed { out.push(Case::corr(crate::sexp::parse(f).unwrap()).tag("fixed")); }
-        // the Lean witness `rlabel_name_collision`, replayed on the implementation
+        // the former collision witness (`label_0r` twice): must round-trip now
         out.push(Case::corr(crate::sexp::parse("(raise (j 10 0 0) (j 20 1 10))").unwrap()).tag("fixed"));
-        out.push(Case::search(crate::sexp::parse("(rtflat (j 10 0 0) (j 20 1 10))").unwrap()).tag("witness-rlabel-collision"));
-        out.push(Case::search(crate::sexp::parse("(rtraw (j 10 0 0) (j 20 1 10))").unwrap()).tag("witness-rlabel-collision"));
+        out.push(Case::search(crate::sexp::parse("(rtflat (j 10 0 0) (j 20 1 10))").unwrap()).tag("former-witness-rlabel-collision"));
+        out.push(Case::search(crate::sexp::parse("(rtraw (j 10 0 0) (j 20 1 10))").unwrap()).tag("former-witness-rlabel-collision"));
 
         for i in 0..1500 * scale {
             let wild = i % 3 == 0;
@@ -548,7 +549,7 @@ impl Prop for C13 {
             let c = gen_raw(rng, true, true);
             let nt = c.len() >= 2;
             let known = has_rlabel_collision(&c);
-            out.push(Case::search(Sexp::app("rtflat", c.clone())).tag(if known { "roundtrip-flat-rlabel-collision" } else { "roundtrip-flat" }).trivial(!nt));
+            out.push(Case::search(Sexp::app("rtflat", c.clone())).tag(if known { "roundtrip-flat-start-and-instr1-r-labels" } else { "roundtrip-flat" }).trivial(!nt));
             out.push(Case::corr(Sexp::app("raise", c)).tag("raise-jumps").trivial(!nt));
         }
         // oracle only: default decompile options (loop recovery on)
@@ -563,7 +564,7 @@ impl Prop for C13 {
             let c = gen_raw(rng, true, false);
             let nt = c.len() >= 2;
             let known = has_rlabel_collision(&c);
-            out.push(Case::search(Sexp::app("rtraw", c)).tag(if known { "roundtrip-stored-rlabel-collision" } else { "roundtrip-stored" }).trivial(!nt));
+            out.push(Case::search(Sexp::app("rtraw", c)).tag(if known { "roundtrip-stored-start-and-instr1-r-labels" } else { "roundtrip-stored" }).trivial(!nt));
         }
         out
     }
